@@ -37,6 +37,14 @@ CLAIMS = {
          "comma-ok results are never dereferenced on the failing branch; struct-copy updates are not lost; every index/slice the Go compiler cannot prove and every unchecked type assertion is a confirmed row. "
          "Does not decide: termination of the lexer/parser, pathological slowness; the confirmed rows are beliefs checked by reading, not proofs.",
          "DESIGN.md §4 C11"),
+ "C08": ("SSA scan for stores rooted at package-level variables with call-graph init-only classification; must-hold lockset on the registry; who-may-write censuses for ModuleImpl/Code fields; module-global container sharing analysis",
+         "Decides: no run-time write of package-level state outside initialisers/hooks (known finding: repl rebinding vm.PrintExpr); registry accessed under its mutex; module instances get their own containers; ModuleImpl and Code are not written after construction; "
+         "no goroutines in the core. Known finding: built-in type dictionaries are writable from Python. Does not decide: data-race freedom of objects contexts share by design (sys.stdout), state reachable only through object graphs (no alias analysis).",
+         "DESIGN.md §4 C08"),
+ "C18": ("map-iteration commutativity classification (typed AST, callees inlined); SSA scan of the call-graph region of the pipeline for package-level writes and nondeterminism sources",
+         "Decides: every map range in the pipeline commutes or is sorted before use; the pipeline region writes no package-level state and consults no clock/random/environment/goroutine. "
+         "Assumes: sequential Go without those sources is deterministic; comparison methods of constant types reached through py.Eq are pure (dynamic edges leaving the pipeline packages are not followed).",
+         "DESIGN.md §4 C18"),
 }
 _todo = "rules for this property are designed (DESIGN.md §4) but not yet implemented in this revision of the checker"
-NA = {p: _todo for p in ["C03","C06","C07","C08","C10","C13","C14","C15","C16","C17","C18"]}
+NA = {p: _todo for p in ["C03","C06","C07","C10","C13","C14","C15","C16","C17"]}
